@@ -196,6 +196,10 @@ EvAll(e, L) ==
                                  ELSE IF \E n \in 1..Len(items[i].sattr) : items[i].sattr[n].n = e.n
                                  THEN items[i].sattr[CHOOSE n \in 1..Len(items[i].sattr) : items[i].sattr[n].n = e.n].val
                                  ELSE Exc("KeyError"), ev |-> <<>>] }
+    \* len(attrs): the element's static attributes as written, and nothing else -- no statement, no declaration of a
+    \* template-language namespace (whatever prefix it binds)
+    [] e.x = "attrslen" -> { [r |-> LET i == AttrsFrame(Len(ctl)) IN
+                                    IF i = 0 THEN Exc("NameError") ELSE VInt(Len(items[i].sattr)), ev |-> <<>>] }
     [] e.x = "wrap"  -> EvAll(e.e, L)      \* lambda / comprehension / conditional ...: identity
     \* sorted(E.keys()): attribute lookup comes first, so a key named like a
     \* method of the dictionary does not hide the method
